@@ -26,6 +26,26 @@ CLAIMED = {
             "copies (multiset), stays sorted, net grows by r, over-multiplicity requests are rejected. The model (including the per-direction gather/scatter for surfaces "
             "and volumes and the partial application when a later direction is rejected) is tied to operations.insert_knot and the insert_knot methods by exact correspondence.",
             "Not proved: the lifting of the curve theorem to surfaces / volumes (model + correspondence + exact oracle only); A5.1's in-place loops vs the model's index-by-index form is tied by correspondence."),
+    'C05': ("7/C05",
+            "The executable model of helpers.knot_refinement is specification-level: the list X the code computes (default knot list, density bisection rounds, "
+            "p - s copies) inserted one knot at a time with the A5.1 model whose shape preservation is proved for all inputs (C04). Lean theorems: the density round "
+            "bisects every interval (length 2n-1, even entries = old knots, odd entries = midpoints strictly between), X has p - s copies per knot, refinement = fold of "
+            "insertions, result sizes grow by |X|. That the code's A5.4 returns exactly these control points and knots is checked by exact correspondence through "
+            "operations.refine_knotvector on curves, surfaces and volumes (all direction subsets, densities 1..2).",
+            "Not proved: the composition of the per-insertion preservation theorem over the whole list X as one statement; A5.4's loops themselves are not modelled (spec-level model)."),
+    'C06': ("7/C06",
+            "Lean theorems: removing r knots at the position where r copies were inserted restores the knot vector; sizes. The model knotRemoval mirrors A5.8 as coded after "
+            "the repair of defect F-06 (fix: commit in /repo; the check reported the violation with a replay on the pinned tree first) and is tied to operations.remove_knot / "
+            "remove_knot methods by exact correspondence, including the removal of knots that are not removable. The exact oracle checks insert r / remove t<=r in every "
+            "direction of curves, surfaces, volumes: knot vector, sizes, evaluated points, and restoration of every control point when t = r.",
+            "Not proved in Lean: insert-then-remove restores the control points for all inputs (checked by oracle + correspondence only); 'whenever removable at all'. "
+            "Volumes: only removable knots generated (the code derives one removability flag from the first iso-curve)."),
+    'C07': ("7/C07",
+            "Lean theorems: split at a domain end is rejected; decomposition of a Bezier shape returns it unchanged; window locality and affine invariance of A2.2 (the two "
+            "ingredients, with C04, of 'each piece coincides with the original under the affine map of its domain'). The model (insertion to multiplicity p, knot/net slices, "
+            "normalisation of the pieces' knot vectors, decomposition loop with u-major order for 'uv') is tied to operations.split_curve / split_surface_u / split_surface_v / "
+            "decompose_curve / decompose_surface by exact correspondence; the exact oracle checks every piece against the original under the affine domain map, piece counts and order, input untouched.",
+            "Not proved: the assembled theorem 'piece = original on its sub-interval' (oracle + correspondence only)."),
     'C03': ("7/C03",
             "Lean theorems over the executable model (any degree, any non-decreasing knot function, any parameter, any ordered field): "
             "linear span search returns the unique half-open interval; A2.2 has p+1 non-negative values summing to 1 and equals the Cox-de Boor "
